@@ -219,8 +219,10 @@ PROPS = {
                         "below the task directory (no `..`), so the name hashed with a file (its path relative to t.Dir) is its root-relative "
                         "path without the `dir/` prefix"],
         "level_text": "Theorems over TaskModel.Finger.invoke (mirror of RunTask / IsTaskUpToDate / Checksum- and TimestampChecker, the latter as "
-                      "patched by TS1-TS3 and fix M, state file names as by fix N): C04_partial (method checksum, pairwise distinct display names - "
-                      "names that merely normalise alike have distinct state files, stateKey_inj -, histories of any length made of "
+                      "patched by TS1-TS3 and fix M, state file names as by fix N and fix F8A): C04_partial (method checksum, NO hypothesis beyond pairwise "
+                      "distinct task names, which every Taskfile has - names that merely normalise alike have distinct state files, stateKey_inj; "
+                      "tasks with equal labels, or a label equal to another task's name, have distinct checksum files, sumKey_inj: the file is a "
+                      "function of the pair (task name, label) -, histories of any length made of "
                       "successful runs, runs failing in the command loop, runs cancelled at the prompt, --dry, --status, --force, list/summary "
                       "queries and arbitrary file edits: skip implies goodRun), C04_partial_timestamp_general (the same histories for ANY "
                       "method-timestamp task, distinct task names, non-decreasing clock: skip implies goodRun or a generates file newer than the "
@@ -231,14 +233,15 @@ PROPS = {
                       "nothing - no marker moved, none created -, so a source written after the last run is rebuilt however many checks lay in "
                       "between), "
                       "C04_timestamp_skip_generates_exist, and decide-checked counterexamples to C04_full over the patched model (kill for both "
-                      "methods, equal labels, method timestamp: never ran / failed run / generates "
+                      "methods, method timestamp: never ran / failed run / generates "
                       "rewritten by others - one root: a generates file as new as the sources vouches on its own). Tie: Gen.DryWiring / "
-                      "Gen.FingerOrder tables (incl. the definitions of the timestamp verdict variables, the touchMarker closure and "
-                      "stateFilename) proved equal to the skeleton the "
+                      "Gen.FingerOrder tables (incl. the definitions of the timestamp verdict variables, the touchMarker closure, "
+                      "stateFilename and checksumFilename) proved equal to the skeleton the "
                       "model was written against; random histories through the real CLI binary compared step by step (exit class, commands run, "
                       "tree incl. .task) with the model; the property monitor skip⇒goodRun evaluated on the real observations.",
         "level_note": "Trusted: Lean kernel; harness canonicalisation (mtimes rebased to a logical clock; state file names mapped back by recomputing "
-                      "xxh3 of the generated names); hashes uninterpreted (the 64-bit name hash of stateFilename idealised as injective); glob "
+                      "xxh3 of the generated names and (name, label) pairs); hashes uninterpreted (the 64-bit name hashes of stateFilename / "
+                      "checksumFilename idealised as injective); glob "
                       "expansion is an oracle.",
     },
     "C05": {
@@ -496,15 +499,6 @@ def _same_key(m, f):
     return da != db and _norm(da) == _norm(db)
 
 
-def _same_display(m, f):
-    """method checksum: different tasks with the SAME display name (equal labels, or a label equal to the other's name)"""
-    ab = _writer_pair(m, f)
-    if not ab or f.get("method") != "checksum":
-        return False
-    a, b = ab
-    return (a.get("label") or a["name"]) == (b.get("label") or b["name"])
-
-
 def _gen_vouches(f):
     """method timestamp: before the check an existing generates file was at least as new as every source (vouch=gen), or the
     marker that vouched had been CREATED by an invocation that itself reported "up to date" (wskip=1)"""
@@ -550,8 +544,8 @@ FINDING_PREDICATES.update({
                                                      _gen_vouches(f)),
     # the stored fingerprint was written by a different task whose name normalises to the same file name (FIXED by fix N) …
     "C04-normalised-name-collision": _c04(_same_key),
-    # … or, still open, by a different checksum task with the same display name (label)
-    "C04-equal-label-collision": _c04(_same_display),
+    # (… or by a different checksum task with the same display name (label): FIXED by fix F8A, the checksum file is a function of
+    # task name AND label; no predicate: such a skip is a violation again)
     # method timestamp, last run fine, but a generates pattern matches nothing (FIXED by TS1)
     "C04-timestamp-missing-generates": _c04(lambda m, f: f.get("method") == "timestamp" and f.get("gens") == "0" and f.get("laexit") == "ok"),
     # method timestamp, the commands never ran: the generates' mtimes alone decided (no marker), or the marker a check created
